@@ -181,7 +181,30 @@ fn single_opcode_covenants() -> Vec<(String, Bytes)> {
         ops.push(Hash(n));
         ops.push(SigEOk(n));
     }
-    ops.into_iter().map(|o| (o.to_string(), Covenant::from_ops(&[o]).to_bytes())).collect()
+    let mut v: Vec<(String, Bytes)> = ops.into_iter().map(|o| (o.to_string(), Covenant::from_ops(&[o]).to_bytes())).collect();
+    // the two standard signature covenants, and the same byte layouts with another operand in each operand-taking instruction
+    // (same shape, other weight)
+    for (name, std) in [("legacy-sig", cov_legacy(0)), ("new-sig", cov_new(1))] {
+        let ops = std.to_ops();
+        v.push((format!("standard {}", name), std.to_bytes()));
+        for i in 0..ops.len() {
+            let alts: Vec<OpCode> = match &ops[i] {
+                SigEOk(_) => [0u16, 31, 33, 65535].iter().map(|n| SigEOk(*n)).collect(),
+                Hash(_) => [0u16, 31, 33, 65535].iter().map(|n| Hash(*n)).collect(),
+                LoadImm(_) => vec![LoadImm(65535)],
+                PushI(_) => vec![PushI(255u8.into())],
+                PushIC(_) => vec![PushIC(255u8.into())],
+                PushB(b) => vec![PushB(vec![0u8; b.len()]), PushB(vec![7u8; b.len() + 1])],
+                _ => vec![],
+            };
+            for alt in alts {
+                let mut o2 = ops.clone();
+                o2[i] = alt.clone();
+                v.push((format!("standard {} with instruction {} replaced by {}", name, i, alt), Covenant::from_ops(&o2).to_bytes()));
+            }
+        }
+    }
+    v
 }
 
 fn loop_shape_cases(run: &Run, fx: &Fx) {
@@ -255,8 +278,14 @@ pub fn run(run: &Run) {
     cfg.faucets = false;
     cfg.overpay = true;
     cfg.max_txs_per_block = 2;
-    cfg.seal_actions = vec![None, Some(action_dest(7)), Some(melstructs::ProposerAction { fee_multiplier_delta: -128, reward_dest: addr_true() })];
-    for (name, fm, depth) in [("custom02-fm0", 0u128, if thorough { 11 } else { 9 }), ("custom02-fm65536", 65536, if thorough { 10 } else { 8 }), ("custom02-fm1e6", 1_000_000, if thorough { 10 } else { 8 })] {
+    cfg.seal_actions = vec![
+        None,
+        Some(action_dest(7)),
+        Some(melstructs::ProposerAction { fee_multiplier_delta: -128, reward_dest: addr_true() }),
+        // the reward is owed whatever the destination says (here: the destruction address)
+        Some(melstructs::ProposerAction { fee_multiplier_delta: 1, reward_dest: melstructs::Address::coin_destroy() }),
+    ];
+    for (name, fm, depth) in [("custom02-fm0", 0u128, if thorough { 10 } else { 8 }), ("custom02-fm65536", 65536, if thorough { 9 } else { 8 }), ("custom02-fm1e6", 1_000_000, if thorough { 9 } else { 7 })] {
         let scn = sc(name, NetID::Custom02, fm, cfg.clone(), depth);
         let st = run_scenario(run, &scn, 1_500_000);
         println!("  scenario {}: depth {} states {} transitions {}", name, st.depth_completed, st.states, st.transitions);
